@@ -1,2 +1,12 @@
 import CssVerif.Props.C07
-#print axioms CssVerif.C07.placeholder
+#print axioms CssVerif.C07.valid_init
+#print axioms CssVerif.C07.valid_step
+#print axioms CssVerif.C07.reject_unchanged
+#print axioms CssVerif.C07.reachable_valid
+#print axioms CssVerif.C07.parse_valid
+#print axioms CssVerif.C07.reparse_same_partial
+#print axioms CssVerif.C07.reachable_reparse
+#print axioms CssVerif.C07.container_insert_allowed
+#print axioms CssVerif.C07.container_delete_allowed
+#print axioms CssVerif.C07.container_reject_unchanged
+#print axioms CssVerif.C07.snapshot_counterexample
